@@ -8,6 +8,33 @@ use std::io::{BufRead, Read, Write};
 use std::panic::{catch_unwind, AssertUnwindSafe};
 use std::path::Path;
 
+use std::alloc::{GlobalAlloc, Layout, System};
+use std::sync::atomic::{AtomicUsize, Ordering};
+
+/// allocation-tracking allocator: the largest single request since the last reset (C12 allocation bound)
+struct Tracking;
+static MAX_REQ: AtomicUsize = AtomicUsize::new(0);
+unsafe impl GlobalAlloc for Tracking {
+    unsafe fn alloc(&self, l: Layout) -> *mut u8 {
+        MAX_REQ.fetch_max(l.size(), Ordering::Relaxed);
+        if l.size() > (1usize << 33) { return std::ptr::null_mut(); }
+        System.alloc(l)
+    }
+    unsafe fn dealloc(&self, p: *mut u8, l: Layout) { System.dealloc(p, l) }
+    unsafe fn alloc_zeroed(&self, l: Layout) -> *mut u8 {
+        MAX_REQ.fetch_max(l.size(), Ordering::Relaxed);
+        if l.size() > (1usize << 33) { return std::ptr::null_mut(); }
+        System.alloc_zeroed(l)
+    }
+    unsafe fn realloc(&self, p: *mut u8, l: Layout, n: usize) -> *mut u8 {
+        MAX_REQ.fetch_max(n, Ordering::Relaxed);
+        if n > (1usize << 33) { return std::ptr::null_mut(); }
+        System.realloc(p, l, n)
+    }
+}
+#[global_allocator]
+static GLOBAL: Tracking = Tracking;
+
 #[path = "/repo/src/bin/copia/plan.rs"]
 mod plan;
 #[path = "/repo/src/bin/copia/reconcile.rs"]
@@ -191,8 +218,62 @@ fn hub_step(case: &Value, base: &Path) -> Value {
     })
 }
 
+/// wire::read_frame / read_magic on raw bytes: {"fn":"frame_read","prefix":[..],"body_len":n,"fill":b,"chunk":k,"what":"frame"|"magic"}
+fn frame_read(case: &Value) -> Value {
+    let mut wire: Vec<u8> = case["prefix"].as_array().map(|a| a.iter().map(|x| x.as_u64().unwrap() as u8).collect()).unwrap_or_default();
+    let n = case["body_len"].as_u64().unwrap_or(0) as usize;
+    let fill = case["fill"].as_u64().unwrap_or(0) as u8;
+    wire.extend(std::iter::repeat(fill).take(n));
+    if let Some(h) = case["body_hex"].as_str() {
+        wire.extend(unhex(h));
+    }
+    let mut rd = Chunked { data: &wire, pos: 0, chunk: case["chunk"].as_u64().unwrap_or(1 << 20) as usize };
+    MAX_REQ.store(0, Ordering::Relaxed);
+    if case["what"].as_str() == Some("magic") {
+        let r = wire::read_magic(&mut rd);
+        return json!({"result": match r { Ok(b) => format!("Ok({b})"), Err(e) => format!("Err({})", e.kind()) }, "consumed": rd.pos, "max_alloc": MAX_REQ.load(Ordering::Relaxed)});
+    }
+    let r = wire::read_frame::<_, wire::Request>(&mut rd);
+    let max_alloc = MAX_REQ.load(Ordering::Relaxed);
+    let out = match r {
+        Ok(Some(m)) => format!("Some({m:?})"),
+        Ok(None) => "None".to_string(),
+        Err(e) => format!("Err({})", e),
+    };
+    json!({"result": out, "consumed": rd.pos, "max_alloc": max_alloc, "wire_len": wire.len()})
+}
+
+/// write_frame then read_frame of sample requests through a chunked reader
+fn frame_roundtrip(case: &Value) -> Value {
+    let chunk = case["chunk"].as_u64().unwrap_or(1) as usize;
+    let msgs = vec![
+        wire::Request::Hello { version: 1 },
+        wire::Request::List,
+        wire::Request::Get { path: "a/b".into() },
+        wire::Request::Put { path: "p".into(), expected: Some([7; 32]), len: 3, hash: [9; 32] },
+        wire::Request::Delete { path: "q".into(), expected: None },
+        wire::Request::Bye,
+    ];
+    let mut wire_b = Vec::new();
+    for m in &msgs {
+        wire::write_frame(&mut wire_b, m).unwrap();
+    }
+    let mut rd = Chunked { data: &wire_b, pos: 0, chunk };
+    let mut bad = Vec::new();
+    for (i, m) in msgs.iter().enumerate() {
+        match wire::read_frame::<_, wire::Request>(&mut rd) {
+            Ok(Some(g)) if format!("{g:?}") == format!("{m:?}") => {}
+            other => { bad.push(json!({"frame": i, "got": format!("{other:?}")})); break; }
+        }
+    }
+    let end = wire::read_frame::<_, wire::Request>(&mut rd);
+    json!({"equal": bad.is_empty() && matches!(end, Ok(None)), "mismatches": bad})
+}
+
 fn run_case(case: &Value, base: &Path) -> Value {
     match case["fn"].as_str().unwrap_or("") {
+        "frame_read" => frame_read(case),
+        "frame_roundtrip" => frame_roundtrip(case),
         "hub_step" => hub_step(case, base),
         other => json!({"error": format!("unknown fn {other}")}),
     }
